@@ -1293,11 +1293,12 @@ def execute(run, ctx, d, fail):
         if list(img.size) != list(d['size']):
             bad('request_within_limits_wrong_size', 'image size %r, requested %r' % (img.size, d['size']))
             return
-        if d.get('rect') and ctx.spec.get('bbox_srs') and not (
+        if d.get('rect') and not (
                 d['rect'][0] >= g['bbox'][0] - 1e-9 and d['rect'][1] >= g['bbox'][1] - 1e-9 and
                 d['rect'][2] <= g['bbox'][2] + 1e-9 and d['rect'][3] <= g['bbox'][3] + 1e-9):
-            # rendered as a sub-query of the part inside the configured SRS extent and pasted into the answer: where the
-            # content lands is C01's subject (sub-image placement), not judged here
+            # rendered as a sub-query of the part inside the extent (of the SRS, if configured, else of the layer = the grid
+            # bbox) and pasted into the answer: where the content lands is C01's subject (sub-image placement, a recorded
+            # finding there), not judged here
             run.dc('getmap_overhanging_the_srs_extent_content_not_judged')
             return
         if d.get('rect') and g['fmt'] == 'png':
